@@ -80,6 +80,19 @@ def _one(fam, seed, props, kw):
         want = tuple(remap) + ('C08',)
     if retag:
         want = tuple(retag) + ('C08',)
+    # a different deck of the same family (same cell / surface / universe numbers, other geometry) is converted first in
+    # this process: whatever a conversion leaves behind (caches keyed by number, shared defaults) then shows in the
+    # deck under test
+    try:
+        from . import run
+        seed0 = seed + 7919
+        if fam == 'directed':
+            from .decks import N_DIRECTED
+            seed0 = (seed + 1) % N_DIRECTED
+        deck0, opts0 = FAMILIES[fam](seed0)
+        run.convert(deck0.text(), lattice=dict(opts0).get('lattice', ()))
+    except Exception:       # noqa: the warm-up deck is checked under its own seed, not here
+        pass
     fails, stats, _ = checks.check_deck(deck, seed, want=want, **opts)
     if retag and not any(c.like for c in deck.cells.values()):
         return {'fails': [], 'stats': stats, 'nontrivial': False}      # only decks with LIKE cells count here
